@@ -111,6 +111,20 @@ class TS:
                 stack.extend(comb[j])
         return out
 
+    def port_names(self, signals):
+        """map top-level input port name -> the harness signal it carries (robust against Amaranth's renaming of
+        equally named signals, e.g. valid / valid$2)"""
+        by_start = {start: name for name, (start, width) in self.inputs.items()}
+        out = {}
+        for sig in signals:
+            val = self.netlist.signals.get(sig)
+            if val is None or len(val) == 0:
+                continue
+            n0 = val[0]
+            if not n0.is_const and n0.cell == 0 and n0.bit in by_start:
+                out[by_start[n0.bit]] = sig
+        return out
+
     # ---- descriptions
     def describe(self):
         return dict(cells=len(self.cells), flipflops=len(self.flops), state_bits=self.state_bits,
